@@ -43,11 +43,11 @@ fn c18_livelist_transmit() {
     let now = crate::time::Instant::from_micros(kani::any::<u32>());
     let hp = if kani::any() { HighPrioOnly::Yes } else { HighPrioOnly::No };
     let res = ll.transmit_telegram(now, &fdl, TelegramTx::new(&mut buf), hp);
-    assert!(ll.stations.data[0] == pre_words[0] && ll.stations.data[1] == pre_words[1], "C18/list: asking for a telegram never changes the list");
+    vassert!(ll.stations.data[0] == pre_words[0] && ll.stations.data[1] == pre_words[1], "C18/list: asking for a telegram never changes the list");
     if pre_done {
-        assert!(res.is_none(), "C18/sweep: after an address is done the application ends its turn");
-        assert!(ll.cursor == if pre_cursor == 125 { 0 } else { pre_cursor + 1 }, "C18/sweep: the sweep advances by exactly one address, wrapping after 125");
-        assert!(!ll.current_address_done, "C18/sweep: the next address is pending");
+        vassert!(res.is_none(), "C18/sweep: after an address is done the application ends its turn");
+        vassert!(ll.cursor == if pre_cursor == 125 { 0 } else { pre_cursor + 1 }, "C18/sweep: the sweep advances by exactly one address, wrapping after 125");
+        vassert!(!ll.current_address_done, "C18/sweep: the next address is pending");
         kani::cover!(pre_cursor == 125, "cover: sweep wraps");
     } else {
         let r = res.unwrap();
@@ -60,17 +60,17 @@ fn c18_livelist_transmit() {
         };
         let mut expect = [0u8; 8];
         let elen = ref_encode(&h, 0, |_| 0, &mut expect);
-        assert!(r.bytes_sent() == elen && r.expects_reply() == Some(pre_cursor), "C18/probe: a status request to the cursor address, expecting its reply");
+        vassert!(r.bytes_sent() == elen && r.expects_reply() == Some(pre_cursor), "C18/probe: a status request to the cursor address, expecting its reply");
         let mut i = 0;
         while i < elen {
-            assert!(buf[i] == expect[i], "C18/probe: the probe is an FDL status request from this station to the cursor address");
+            vassert!(buf[i] == expect[i], "C18/probe: the probe is an FDL status request from this station to the cursor address");
             i += 1;
         }
-        assert!(pre_cursor <= 125, "C18/probe: only addresses 0..125 are probed");
-        assert!(ll.cursor == pre_cursor && !ll.current_address_done, "C18/sweep: the cursor stays until reply or time-out");
+        vassert!(pre_cursor <= 125, "C18/probe: only addresses 0..125 are probed");
+        vassert!(ll.cursor == pre_cursor && !ll.current_address_done, "C18/sweep: the cursor stays until reply or time-out");
         kani::cover!(true, "cover: probe sent");
     }
-    assert!(ll.cursor <= 125, "C18/probe: the cursor stays within 0..125");
+    vassert!(ll.cursor <= 125, "C18/probe: the cursor stays within 0..125");
 }
 
 #[kani::proof]
@@ -100,23 +100,23 @@ fn c18_livelist_reply_or_timeout() {
             })
         };
         ll.receive_reply(now, &fdl, addr, t);
-        assert!(bit(&ll.stations.data, addr), "C18/list: an answering address is in the list");
-        assert!(others_unchanged(&pre_words, &ll.stations.data, addr), "C18/list: no other address changes");
+        vassert!(bit(&ll.stations.data, addr), "C18/list: an answering address is in the list");
+        vassert!(others_unchanged(&pre_words, &ll.stations.data, addr), "C18/list: no other address changes");
         let ev = ll.take_last_event();
         if was_set {
-            assert!(ev.is_none(), "C18/events: no event for a station that is already known");
+            vassert!(ev.is_none(), "C18/events: no event for a station that is already known");
         } else if !is_sc {
-            assert!(ev == Some(StationEvent::Discovered(StationDescription { address: addr, state })), "C18/events: Discovered, with the reported station type, exactly when the address was not in the list");
+            vassert!(ev == Some(StationEvent::Discovered(StationDescription { address: addr, state })), "C18/events: Discovered, with the reported station type, exactly when the address was not in the list");
             kani::cover!(true, "cover: station discovered");
         }
     } else {
         ll.handle_timeout(now, &fdl, addr);
-        assert!(!bit(&ll.stations.data, addr), "C18/list: a silent address is not in the list");
-        assert!(others_unchanged(&pre_words, &ll.stations.data, addr), "C18/list: no other address changes");
+        vassert!(!bit(&ll.stations.data, addr), "C18/list: a silent address is not in the list");
+        vassert!(others_unchanged(&pre_words, &ll.stations.data, addr), "C18/list: no other address changes");
         let ev = ll.take_last_event();
-        assert!(ev == if was_set { Some(StationEvent::Lost(addr)) } else { None }, "C18/events: Lost exactly when the address was in the list");
+        vassert!(ev == if was_set { Some(StationEvent::Lost(addr)) } else { None }, "C18/events: Lost exactly when the address was in the list");
         kani::cover!(was_set, "cover: station lost");
     }
-    assert!(ll.current_address_done && ll.cursor == addr, "C18/sweep: the address is done, the cursor moves with the next turn");
-    assert!(ll.take_last_event().is_none(), "C18/events: an event is handed out once");
+    vassert!(ll.current_address_done && ll.cursor == addr, "C18/sweep: the address is done, the cursor moves with the next turn");
+    vassert!(ll.take_last_event().is_none(), "C18/events: an event is handed out once");
 }
